@@ -563,6 +563,10 @@ impl<const BITS: usize, const LIMBS: usize> Shl<Self> for Uint<BITS, LIMBS> {
         // Rationale: if BITS is larger than 2**64 - 1, it means we're running
         // on a 128-bit platform with 2.3 exabytes of memory. In this case,
         // the code produces incorrect output.
+        // A shift amount of `2**64` or more moves every bit out.
+        if rhs.as_limbs()[1..].iter().any(|&limb| limb != 0) {
+            return Self::ZERO;
+        }
         #[allow(clippy::cast_possible_truncation)]
         self.wrapping_shl(rhs.as_limbs()[0] as usize)
     }
@@ -589,6 +593,10 @@ impl<const BITS: usize, const LIMBS: usize> Shr<Self> for Uint<BITS, LIMBS> {
         // Rationale: if BITS is larger than 2**64 - 1, it means we're running
         // on a 128-bit platform with 2.3 exabytes of memory. In this case,
         // the code produces incorrect output.
+        // A shift amount of `2**64` or more moves every bit out.
+        if rhs.as_limbs()[1..].iter().any(|&limb| limb != 0) {
+            return Self::ZERO;
+        }
         #[allow(clippy::cast_possible_truncation)]
         self.wrapping_shr(rhs.as_limbs()[0] as usize)
     }
